@@ -649,6 +649,19 @@ def solve_file(res: Result, timeout=10.0, portfolio=PORTFOLIO, confirm_unsat=Tru
                     f.write(f"; {res.solver} answered unsat, {dis['solver']} answered sat on {os.path.basename(path)}\n; command: {' '.join(SOLVERS[dis['solver']])}\n{dis['model']}\n")
             except OSError:
                 pass
+    if (res.status == "proved" and not res.expect_fail and confirm_unsat and res.vacuity_probe is None
+            and os.environ.get("PYVC_PROBE_ALL", "0") == "1" and os.environ.get("PYVC_VACUITY_PROBE", "1") != "0"):
+        # PROBE ALL (lead, after the engine freeze): the same hypotheses-only probe for EVERY discharged obligation, whatever the
+        # theory mix of the file -- it also exposes an inconsistent symbolic state produced by the engine itself (seen once:
+        # a guarded dict.update under merged branches, notes/C20.requests.md item 9), not only solver defects.
+        pt_ = max([a["time_s"] for a in res.attempts if a["solver"] == res.solver and a["status"] == "unsat"], default=None)
+        a1, a2 = vacuity_probe(path, res.solver, 2.0 if timeout <= 10 else 5.0, pt_)
+        res.vacuity_probe = a1
+        if a1 == "unsat" and a2 != "unsat" and not any(str(c_).startswith("cvc5") for c_ in res.confirmed_by):
+            res.vacuous = True
+            res.info = dict(res.info, vacuous=f"{res.solver} finds the hypotheses alone unsat and cvc5 certifies neither the proof nor the infeasibility")
+            if os.environ.get("PYVC_VACUITY_STRICT", "0") == "1":
+                res.status = "unknown"
     return res
 
 
